@@ -1488,6 +1488,36 @@ def _finfo(L, dt):
     raise PyRaise(builtin_exc('ValueError'), 'finfo of non-float dtype')
 
 
+@model('numpy.append')
+def _np_append(L, arr, values, axis=None):
+    """numpy.append(a, v) without axis: flattened a followed by flattened v.  Supported: 1-d a (array or python list) and a
+    scalar or a 1-d array v; the result is float64 unless both are integer (numpy's promotion: [] is float64)."""
+    if axis is not None:
+        raise Unsupported('numpy.append with axis')
+    a = L.as_arr(arr) if not (isinstance(arr, list) and not arr) else Arr((0,), lambda ix: 0.0, 'float64')
+    if a.ndim != 1:
+        raise Unsupported('numpy.append rank')
+    if isinstance(values, Arr):
+        v = values
+        if v.ndim != 1:
+            raise Unsupported('numpy.append of nd values')
+    else:
+        v = L.as_arr(values)
+        v = Arr((1,), lambda ix, v=v: v.f(()), v.dtype)
+    dt = 'int64' if (a.dtype == 'int64' and v.dtype in ('int64', 'bool')) else 'float64'
+    n0, fa, fv = a.shape[0], a.f, v.f
+    n = simp(to_z3(n0) + to_z3(v.shape[0]))
+
+    def f(ix):
+        i = to_z3(ix[0])
+        x, y = fa((i,)), fv((simp(i - to_z3(n0)),))
+        if dt == 'float64':
+            x, y = to_real(x), to_real(y)
+        c = simp(i < to_z3(n0))
+        return x if c is True else (y if c is False else ite(c, x, y))
+    return Arr((n,), f, dt)
+
+
 @method('Arr', 'astype')
 def _astype(L, a, dt, **kw):
     kind = _dtype_kind(dt)
